@@ -2,13 +2,12 @@
 from fractions import Fraction
 import math
 import common as C
-import zigref
+import zigtie
 from props import nutslib as N
 
 ID = "C03"
 LEVEL = "proof"
 COQ_HEADER = "From MiniMcmc Require Import Model.NUTSEval Model.FindEps Model.Ziggurat."
-ZMARK = -1000000021
 LMARK = -1000000011
 AMARK = -1000000017
 GMARK = -1000000013
@@ -100,29 +99,11 @@ def run_impl(cases):
                                     for i in idx])
         for i, r in zip(idx, rep):
             outs[i]["replay"] = r["values"]
-            # the same variates from the seed alone (Model.Ziggurat.mixed): kinds translated to the model's numbering
-            mk = model_kinds(cases[i]["f"], draw_plan(cases[i], outs[i])[0])
-            if len(mk) <= 4000:
-                vs, tri = zigref.mixed(int(cases[i]["seed"]), mk)
-                outs[i]["zig"] = {"kinds": mk, "ref": vs, "orc": [list(t) for t in tri]}
+            # the same variates from the seed alone (Model.Ziggurat.mixed)
+            zg = zigtie.prepare(cases[i]["f"], cases[i]["seed"], draw_plan(cases[i], outs[i])[0])
+            if zg:
+                outs[i]["zig"] = zg
     return outs
-
-
-def model_kinds(f, kinds):
-    """trace kinds (0 normal, 1 Exp(1), 2 uniform in T, 3 uniform f64) -> Model.Ziggurat.mixed kinds (2 = 53-bit, 3 = 24-bit numerator)"""
-    return [k if k < 2 else ((3 if f == "f32" else 2) if k == 2 else 2) for k in kinds]
-
-
-def zig_expected(f, kinds, mk, rp):
-    """the harness's replayed values (f64 bits of values in T) in the model's rendering"""
-    res = []
-    for k, m, b in zip(kinds, mk, rp):
-        x = C.f64_bits_to_float(b)
-        if m < 2:
-            res.append(C.float_to_f32_bits(x) if f == "f32" else b)
-        else:
-            res.append(int(x * (2 ** 24 if m == 3 else 2 ** 53)))
-    return res
 
 
 def draw_plan(case, out):
@@ -177,7 +158,7 @@ def coq_term(case, out):
     zg = out.get("zig")
     ztail = ""
     if zg:
-        ztail = " ++ [%s] ++ mixed_eval %s%%N %s %s" % (C.z(ZMARK), case["seed"], C.zlist(zg["kinds"]), C.zlist([o[2] for o in zg["orc"]]))
+        ztail = " ++ " + zigtie.term(case["seed"], zg)
     lv = lv0
     if not lv:
         return t + ztail
@@ -246,25 +227,11 @@ def compare(case, out, model):
         return None
     trs = [t for t in transitions(case, out) if usable(t) and not N.ambiguous(t, case["f"])]
     lm = None
-    if ZMARK in model:
-        k = model.index(ZMARK)
-        model, zm = model[:k], model[k + 1:]
-        zg = out["zig"]
-        if zm == [0]:
-            return "Model.Ziggurat.mixed ran out of fuel or oracle values for seed %s" % case["seed"]
-        n = len(zg["kinds"])
-        vs, left, log = zm[1:1 + n], zm[1 + n], zm[2 + n:]
-        kinds = draw_plan(case, out)[0]
-        exp = zig_expected(case["f"], kinds, zg["kinds"], out["replay"])
-        got = [C.float_to_f32_bits(C.f64_bits_to_float(v)) if (case["f"] == "f32" and m < 2) else v for v, m in zip(vs, zg["kinds"])]
-        for j, (a, b) in enumerate(zip(got, exp)):
-            if a != b:
-                return ("variate %d (model kind %d) of an identically seeded generator is %r in the implementation's crates; "
-                        "Model.Ziggurat.mixed computes %r from the seed %s" % (j, zg["kinds"][j], b, a, case["seed"]))
-        if left != 0 or log != [v for o in zg["orc"] for v in (o[0], o[1])]:
-            return "Model.Ziggurat.mixed consumed other exp/ln oracle values than the reference reading (seed %s)" % case["seed"]
-        if vs != zg["ref"]:
-            return "driver/zigref.py and Model.Ziggurat.mixed disagree for seed %s" % case["seed"]
+    model, zm = zigtie.split(model)
+    if zm is not None:
+        r = zigtie.check(case["f"], case["seed"], out["zig"], out["replay"], zm)
+        if r:
+            return r
     if LMARK in model:
         k = model.index(LMARK)
         model, lm = model[:k], model[k + 1:]
